@@ -42,6 +42,13 @@ func InitVisited(ctx context.Context) context.Context {
 	return ctx
 }
 
+// ResetVisited returns a context with a fresh, empty visited set. Skipping an
+// already visited subject set is only sound within a union, so every operand
+// of an intersection or negation needs its own scope.
+func ResetVisited(ctx context.Context) context.Context {
+	return context.WithValue(ctx, visitedMapKey, newStringSet())
+}
+
 func CheckAndAddVisited(ctx context.Context, current relationtuple.Subject) (context.Context, bool) {
 	set, ok := ctx.Value(visitedMapKey).(*stringSet)
 	if !ok {
